@@ -32,6 +32,27 @@ def m_injector_memo(r):
         "\t\t\tif k.Implements(t) {\n\t\t\t\tval = v\n\t\t\t\tbreak\n\t\t\t}\n\t\t}\n",
         "\t\t\tif k.Implements(t) {\n\t\t\t\tval = v\n\t\t\t\tbreak\n\t\t\t}\n\t\t}\n\t\tif val.IsValid() {\n\t\t\tinj.values[t] = val\n\t\t}\n")
 
+def m_static_params(r):
+    # the static shortcut hands ONE Params map, built at registration, to every request of a fully static route
+    p = r + "/router.go"
+    rep(p, "\thandlerWrapper func(Handler) Handler\n}", "\thandlerWrapper func(Handler) Handler\n\n\tstaticParams map[string]map[string]route.Params // prebuilt params of static routes\n}")
+    rep(p, "\t\tcontextCreator: contextCreator,\n\t}\n", "\t\tcontextCreator: contextCreator,\n\t\tstaticParams:   make(map[string]map[string]route.Params),\n\t}\n")
+    rep(p, "\t\tr.staticRoutes[m] = make(map[string]route.Leaf)\n", "\t\tr.staticRoutes[m] = make(map[string]route.Leaf)\n\t\tr.staticParams[m] = make(map[string]route.Params)\n")
+    rep(p, "\t\t\tr.staticRoutes[m][leaf.Route()] = leaf\n", "\t\t\tr.staticRoutes[m][leaf.Route()] = leaf\n\t\t\tr.staticParams[m][leaf.Route()] = route.Params{\"route\": leaf.Route()}\n")
+    rep(p, "\t\tleaf.Handler()(w, req, route.Params{\n\t\t\t\"route\": leaf.Route(),\n\t\t})\n", "\t\tleaf.Handler()(w, req, r.staticParams[req.Method][req.URL.Path])\n")
+
+def m_arg_pool(r):
+    # fastInvoke takes its argument slice from a sync.Pool (defer Put) and puts it back once more on the error path
+    p = r + "/inject/inject.go"
+    rep(p, "import (\n\t\"fmt\"\n\t\"reflect\"\n)", "import (\n\t\"fmt\"\n\t\"reflect\"\n\t\"sync\"\n)\n\nvar argPool = sync.Pool{New: func() interface{} { s := make([]interface{}, 8); return &s }}")
+    rep(p, "\t\tin = make([]interface{}, numIn) // Panic if t is not kind of Func\n",
+        "\t\tp := argPool.Get().(*[]interface{})\n\t\tdefer argPool.Put(p)\n\t\tif cap(*p) < numIn {\n\t\t\t*p = make([]interface{}, numIn)\n\t\t}\n\t\tin = (*p)[:numIn] // Panic if t is not kind of Func\n")
+    s = open(p).read()
+    i = s.index("func (inj *injector) fastInvoke")
+    j = s.index("return nil, fmt.Errorf(\"value not found for type %v\", argType)", i)
+    s = s[:j] + "argPool.Put(p)\n\t\t\t\t" + s[j:]
+    open(p, "w").write(s)
+
 def m_append_handlers(r):
     rep(r + "/flame.go", "\tc := newContext(w, r, params, hs, urlPath)\n",
         "\tf.handlers = append(f.handlers[:len(f.handlers):len(f.handlers)], handlers...)[:len(f.handlers)]\n\tc := newContext(w, r, params, hs, urlPath)\n")
@@ -55,7 +76,7 @@ def m_leaf_params(r):
     rep(p, "func (l *placeholderLeaf) match(segment string, params Params, header http.Header) bool {\n\tif !l.matchHeader(header) {\n\t\treturn false\n\t}\n\tparams[l.bind] = segment\n",
         "func (l *placeholderLeaf) match(segment string, params Params, header http.Header) bool {\n\tif !l.matchHeader(header) {\n\t\treturn false\n\t}\n\tif l.lastParams == nil {\n\t\tl.lastParams = make(Params)\n\t}\n\tl.lastParams[l.bind] = segment\n\tparams[l.bind] = l.lastParams[l.bind]\n")
 
-MUT = {"injector_memo": m_injector_memo, "once_nilcheck": m_once_nilcheck, "route_once_nilcheck": m_route_once_nilcheck, "append_handlers": m_append_handlers, "cache_leaf": m_cache_leaf,
+MUT = {"static_params": m_static_params, "arg_pool": m_arg_pool, "injector_memo": m_injector_memo, "once_nilcheck": m_once_nilcheck, "route_once_nilcheck": m_route_once_nilcheck, "append_handlers": m_append_handlers, "cache_leaf": m_cache_leaf,
        "pool_contexts": m_pool_contexts, "leaf_params": m_leaf_params}
 
 if __name__ == "__main__":
